@@ -123,6 +123,14 @@ class Ctx:
             dict(name=name, kind=kind, cond=_bool_term(cond), pc=list(self.pc))
         )
 
+    def oblige_cases(self, cond, name, cases, kind="assert"):
+        """Case split: prove `cond` under each case separately, and that the cases are
+        exhaustive (helps the nonlinear solver; logically the same obligation)."""
+        cs = [_bool_term(c) for c in cases]
+        self.oblige(z3.Or(*cs), name + " [cases exhaustive]", kind="lemma")
+        for k, c in enumerate(cs):
+            self.obligations.append(dict(name="%s [case %d]" % (name, k), kind=kind, cond=_bool_term(cond), pc=list(self.pc) + [c]))
+
     def hyps(self, pc=None):
         return list(self.pc if pc is None else pc) + [a for a, _ in self.axioms]
 
@@ -137,8 +145,18 @@ class Ctx:
             val = self.decisions[self.ptr][0]
             self.ptr += 1
         else:
-            can_t = self._feasible(term)
-            can_f = self._feasible(z3.Not(term))
+            # syntactic shortcut: the condition (or its negation) is already on the path
+            ids = self._pc_ids()
+            nterm = z3.simplify(z3.Not(term))
+            if term.get_id() in ids:
+                can_t, can_f = True, False
+            elif nterm.get_id() in ids:
+                can_t, can_f = False, True
+            else:
+                can_t = self._feasible(term)
+                can_f = self._feasible(nterm) if can_t else True
+                if not can_t and not self._feasible(nterm):
+                    can_f = False
             if can_t and can_f:
                 val, pending = True, True
             elif can_t:
@@ -158,6 +176,13 @@ class Ctx:
         c = term if val else z3.Not(term)
         self.pc.append(c)
         return val
+
+    def _pc_ids(self):
+        n = len(self.pc)
+        if getattr(self, "_ids_n", -1) != n:
+            self._ids = set(z3.simplify(t).get_id() for t in self.pc)
+            self._ids_n = n
+        return self._ids
 
     def _feasible(self, term):
         """Is pc /\\ axioms /\\ term satisfiable?  (sliced to the constraints that share
